@@ -548,6 +548,16 @@ let saslm (rest : string) : string =
       Buffer.contents buf
   | _ -> failwith "saslm: expected `mech | actions`"
 
+(* ---------- ssplit: the session's split of an oversized transfer ---------- *)
+let ssplit (rest : string) : string =
+  match words rest with
+  | [mfb; lfs; lf; lr; n] ->
+      (* the single-frame test uses the performative as given (more unchanged), the split the one with more=true *)
+      let mfb = n_of_string mfb and lfs = n_of_string lfs and lf = n_of_string lf and lr = n_of_string lr and n = n_of_string n in
+      let sizes = if int_of_n lfs + int_of_n n <= int_of_n mfb then [n] else SessionSplit.session_split mfb lf lr n in
+      "OK " ^ Stdlib.String.concat "," (Stdlib.List.map str_n sizes)
+  | _ -> failwith "ssplit: expected mfb lf_single lf lr n"
+
 let dispatch (line : string) : string =
   match Stdlib.String.index_opt line ' ' with
   | None -> failwith "no model tag"
@@ -563,6 +573,7 @@ let dispatch (line : string) : string =
        | "rx" -> rx rest
        | "lifem" -> lifem rest
        | "saslm" -> saslm rest
+       | "ssplit" -> ssplit rest
        | "lnk" -> c11_lnk rest
        | "chn" -> c11_chn rest
        | "xfer" -> frame_xfer rest
